@@ -29,7 +29,9 @@ PHRASES = {
                 "mod a { pub use a::x }", "mod a { pub use b }", "use a::x", "use b::x", "use a::*", "use a::b",
                 "fn dsp(){ a::x() }", "fn dsp(){ x() }", "fn dsp(){ b }", "pub use a::x"],
     "types": ["type alias A = B", "type alias B = A", "type alias A = (A, float)", "type rec L = N | C(float, L)", "type A = X(B)",
-              "type B = Y(A)", "fn f(v:A){ v }", "fn g(v:B)->A{ v }", "fn dsp(){ f(1) }", "fn dsp(){ g(C(1, N)) }", "let v:A = 1"],
+              "type B = Y(A)", "fn f(v:A){ v }", "fn g(v:B)->A{ v }", "fn dsp(){ f(1) }", "fn dsp(){ g(C(1, N)) }", "let v:A = 1",
+              # aliases (also cyclic ones) mentioned by the payloads of sum types, directly and inside tuples / arrays
+              "type alias A = A", "type alias B = [A]", "type T = V(A) | W", "type U = P((B, float)) | Q"],
     "functions": ["fn f(x){ g(x) }", "fn g(x){ f(x) }", "fn f(x){ f }", "let h = f", "let f = h", "fn dsp(){ f(1) }", "fn dsp(){ h(h) }",
                   "fn f(x){ self(x) }", "let (p, q) = (q, p)", "fn dsp(){ dsp }"],
 }
